@@ -693,6 +693,8 @@ impl RoaringBitmap {
                 // For optimal locality of reference:
                 //  * container[i] should be a cache hit after binary search, rank it first
                 //  * sum in reverse to avoid cache misses near i
+                #[cfg(roaring_verif)]
+                crate::verif_hooks::site(0, i, self.containers.len());
                 unsafe { self.containers.get_unchecked(i) }.rank(index)
                     + self.containers[..i].iter().rev().map(|c| c.len()).sum::<u64>()
             }
